@@ -234,6 +234,61 @@ Proof.
   exact (parent_method_l d cd p r g Hcd Hp).
 Qed.
 
+(* ---- one level deeper *)
+Lemma defining_inv o x : defining o = Ok x ->
+  match x with Some e => exists y, o = Ok (Some (e, y)) | None => o = Ok None end.
+Proof. destruct o as [[[e y]|]| |]; simpl; intros H; inversion H; subst; eauto. Qed.
+
+Lemma parent_method_self e ce p lex r g : get_class t e = Some ce -> c_extends ce = Some p ->
+  defining (parent_method t (Some e) lex r g) = Ok (resolve t p g).
+Proof.
+  intros Hd Hp. unfold parent_method. rewrite Hd, Hp.
+  destruct (closed_parent t Hcl e ce p Hd Hp) as [pc Hpc].
+  rewrite (chain_find_any_spec g _ p pc Hpc (acyclic_class t Hac p pc Hpc)), <- resolve_any.
+  destruct (resolve t p g) as [a|] eqn:Ha; [|reflexivity].
+  rewrite resolve_any in Ha. apply find_some in Ha. destruct Ha as [_ Ha].
+  unfold has_any, has_kind in Ha. unfold meth_any, meth_at.
+  destruct (get_class t a) as [ca|]; [|discriminate].
+  destruct (find_meth false g (c_methods ca)); [reflexivity|].
+  destruct (find_meth true g (c_methods ca)); [reflexivity|discriminate].
+Qed.
+
+Lemma via_parent_prefix {A} r c f g d p (k : string -> outcome (option A)) :
+  get_class t r = Some c -> resolve t r f = Some d -> parent_of t d = Some p ->
+  bind2 (object_method t r f) (fun d => bind2 (parent_method t None d r g) k) =
+  match resolve t p g with Some e => k e | None => Ok None end.
+Proof.
+  intros Hr Hd Hp. rewrite (object_method_full r c f Hr), Hd.
+  destruct (first_named_some f r d Hd) as [x Hx]. rewrite Hx. simpl.
+  unfold parent_of in Hp. destruct (get_class t d) as [cd|] eqn:Hcd; [|discriminate].
+  pose proof (parent_method_l d cd p r g Hcd Hp) as H. apply defining_inv in H.
+  destruct (resolve t p g) as [e|]; [destruct H as [y H]|]; rewrite H; reflexivity.
+Qed.
+
+Lemma via_parent_static_l r c f g s d p : get_class t r = Some c -> static_name t s = true ->
+  resolve t r f = Some d -> parent_of t d = Some p ->
+  via_parent_static t r f g s = Ok (match resolve t p g with Some _ => resolve t r s | None => None end).
+Proof.
+  intros Hr Hs Hd Hp. unfold via_parent_static. rewrite (via_parent_prefix r c f g d p _ Hr Hd Hp).
+  destruct (resolve t p g); [|reflexivity]. unfold static_keyword_call. exact (static_from_resolve s r c Hs Hr).
+Qed.
+Lemma via_parent_self_l r c f g s d p : get_class t r = Some c -> static_name t s = true ->
+  resolve t r f = Some d -> parent_of t d = Some p ->
+  via_parent_self t r f g s = Ok (match resolve t p g with Some e => resolve t e s | None => None end).
+Proof.
+  intros Hr Hs Hd Hp. unfold via_parent_self. rewrite (via_parent_prefix r c f g d p _ Hr Hd Hp).
+  destruct (resolve t p g) as [e|] eqn:He; [|reflexivity].
+  destruct (resolve_registered p g e He) as [ce Hce]. unfold static_call. exact (static_from_resolve s e ce Hs Hce).
+Qed.
+Lemma via_parent_parent_l r c f g h d p e p' : get_class t r = Some c ->
+  resolve t r f = Some d -> parent_of t d = Some p -> resolve t p g = Some e -> parent_of t e = Some p' ->
+  via_parent_parent t r f g h = Ok (resolve t p' h).
+Proof.
+  intros Hr Hd Hp He Hp'. unfold via_parent_parent. rewrite (via_parent_prefix r c f g d p _ Hr Hd Hp), He.
+  unfold parent_of in Hp'. destruct (get_class t e) as [ce|] eqn:Hce; [|discriminate].
+  exact (parent_method_self e ce p' e r h Hce Hp').
+Qed.
+
 (* ---- like *)
 Lemma forallb_filter {A} (f g : A -> bool) l :
   forallb f (filter g l) = forallb (fun x => if g x then f x else true) l.
